@@ -82,6 +82,19 @@ def gen(chk, tier):
             cmds.append(dict(sc=k, op="gcm.aead", h="a", key=key_, noncesize=len(nonce), tagsize=ts, path="asm"))
             cmds.append(dict(sc=k, op="gcm.open", h="a", nonce=nonce, aad=aad, ct=bad_ct, prefix=[], spare=spare,
                              alias=alias, repeat=(alias == "none"), j="b"))
+        # ... and with something already in dst (room behind it or not): a refused message leaves it alone; the record
+        # idiom, where dst is the header that is also the additional data: the authentic message still opens afterwards
+        for spare in (len(pt) + 3, max(0, len(pt) - 1)):
+            k = scen("open_forged_prefix_%s" % ("fits" if spare >= len(pt) else "grows"))
+            cmds.append(dict(sc=k, op="gcm.aead", h="a", key=key_, noncesize=len(nonce), tagsize=ts, path="asm"))
+            cmds.append(dict(sc=k, op="gcm.open", h="a", nonce=nonce, aad=aad, ct=bad_ct, prefix=[7, 8, 9] + rb(rng, 13),
+                             spare=spare, alias="none", repeat=True, j="b"))
+        if aad:
+            k = scen("open_record_idiom")
+            cmds.append(dict(sc=k, op="gcm.aead", h="a", key=key_, noncesize=len(nonce), tagsize=ts, path="asm"))
+            for c_ in (bad_ct, ct, bad_ct, ct):
+                cmds.append(dict(sc=k, op="gcm.open", h="a", nonce=nonce, aad=aad, ct=c_, prefix=aad, spare=len(pt) + 2,
+                                 alias="none", repeat=False, j="b", dst_is_aad=True))
     # prefix (len(dst)) length classes for the path that reallocates and copies the prefix, and for the path that
     # appends in place: every length 0..72 and the neighbours of larger powers of two (the copy routines work in
     # 16/8/4/2/1-byte stages)
